@@ -20,7 +20,8 @@ MOD = "mc.props.rconc"
 class RConcHarness:
     horizon = 6000
 
-    def __init__(self, ct, callers, max_connections=1, faults=0, cancel_steps=0, probe=True):
+    def __init__(self, ct, callers, max_connections=1, faults=0, cancel_steps=0, probe=True, timers=False):
+        self.timers = timers
         self.ct = ct
         self.callers = callers
         self.max_connections = max_connections
@@ -32,7 +33,9 @@ class RConcHarness:
         ct = self.ct
         topo = scen.Topology(scen.CONN_TYPES[ct])
         kinds = {"connect": ["ConnectError"], "start_tls": ["ConnectError"], "read": ["ReadError"], "write": ["WriteError"]}
-        w = RWorld(chooser, topo.router, faults=self.faults, cancel_steps=self.cancel_steps, fault_kinds=kinds)
+        w = RWorld(chooser, topo.router, faults=self.faults, cancel_steps=self.cancel_steps, fault_kinds=kinds, timers=self.timers)
+        import trio
+        times = {}
         pool = scen.make_pool(ct, w.backend, "async", max_connections=self.max_connections)
         specs = []
         for i, cs in enumerate(self.callers):
@@ -42,11 +45,30 @@ class RConcHarness:
             url = scen.url_for(ct, host=f"{origin}.example", token=tok)
             specs.append((f"c{i}", kind, tok, opts))
 
-            def mk(kind=kind, url=url, tok=tok):
+            ext = {}
+            for o in opts:
+                if o.startswith("pt="):
+                    ext = {"timeout": {"pool": float(o[3:])}}
+
+            def mk(kind=kind, url=url, tok=tok, ext=ext, name=f"c{i}"):
                 async def prog():
+                    times[name] = [trio.current_time(), None]
+                    try:
+                        return await body()
+                    finally:
+                        times[name][1] = trio.current_time()
+
+                async def body():
                     if kind == "req":
-                        r = await pool.request("GET", url)
+                        r = await pool.request("GET", url, extensions=dict(ext))
                         return (r.status, r.content)
+                    if kind == "hold":
+                        gate = w.make_release(name)
+                        async with pool.stream("GET", url, extensions=dict(ext)) as r:
+                            w.arm(name)
+                            await gate.wait()
+                            data = await r.aread()
+                        return (r.status, data)
                     if kind == "post":
                         r = await pool.request("POST", url, content=b"data-" + tok.encode())
                         return (r.status, r.content)
@@ -89,7 +111,31 @@ class RConcHarness:
             return res
         w.post = probe
         w.run()
-        return self.judge(w, topo, pool, specs, post)
+        ex = self.judge(w, topo, pool, specs, post)
+        self.judge_pool_timeouts(ex, w, specs, times, pool)
+        return ex
+
+    def judge_pool_timeouts(self, ex, w, specs, times, pool):
+        """C16 under trio: PoolTimeout exactly T after the request was enqueued, never for a request that was served."""
+        results = {c["name"]: c["result"] for c in w.callers}
+        for (name, kind, tok, opts) in specs:
+            pt = next((float(o[3:]) for o in opts if o.startswith("pt=")), None)
+            r = results.get(name)
+            if pt is None or r is None or name not in times or times[name][1] is None:
+                continue
+            waited = round(times[name][1] - times[name][0], 6)
+            sig = {"harness": "conc", "world": "trio", "ct": self.ct, "pool_timeout_race": False}
+            desc = f"world=trio ct={self.ct} callers={self.callers} N={self.max_connections} events={w.events_log[-20:]}"
+            if r[0] == "exc" and isinstance(r[1], httpcore.PoolTimeout):
+                if waited != pt:
+                    ex.violations.append(Violation("C16.pool-timeout-instant", f"caller {name}: PoolTimeout after {waited}s, configured pool timeout {pt}s | {desc}",
+                                                   dict(sig, kind="pool-timeout-instant")))
+            elif r[0] == "exc":
+                ex.violations.append(Violation("C16.pool-timeout-class", f"caller {name}: {exc_class(r[1])}: {r[1]} instead of PoolTimeout / an answer | {desc}",
+                                               dict(sig, kind="pool-timeout-class")))
+            elif r[0] == "ok" and waited > pt:
+                ex.violations.append(Violation("C16.pool-timeout-missed", f"caller {name} was served after waiting {waited}s in a pool with pool timeout {pt}s (no connection was handed to it in time?) | {desc}",
+                                               dict(sig, kind="pool-timeout-missed")))
 
     def judge(self, w, topo, pool, specs, post):
         ex = Execution()
@@ -140,6 +186,8 @@ class RConcHarness:
                 e = r[1]
                 if not documented_exception(e):
                     viol("C15", "undocumented-exception", f"caller {name}: {exc_class(e)}: {e}", leaked=exc_class(e))
+                elif isinstance(e, httpcore.PoolTimeout) and any(o.startswith("pt=") for o in opts):
+                    pass        # judged by judge_pool_timeouts
                 elif not inj and not canc:
                     viol("C08", "collateral-failure", f"caller {name} failed with {exc_class(e)}: {e} although nothing was injected")
         if w.deadlock is not None:
@@ -184,6 +232,16 @@ def S(ct, callers, **kw):
 def scenarios(pid, tier):
     quick = tier == "quick"
     out = []
+    if pid == "C16":
+        # PoolTimeout under trio (trio.fail_after in _synchronization.AsyncEvent.wait): all orders of release / deadline / completions
+        for ct in (["h11", "h2alpn"] if quick else ["h11", "h11tls", "h2alpn", "tunnel", "socks"]):
+            # (with trio's batch order pinned, the task started LAST runs first: the holder is listed last)
+            out.append((S(ct, ["req:b:pt=5", "hold:a"], max_connections=1, timers=True, probe=False), 3 if quick else 4))
+            out.append((S(ct, ["req:a:pt=0"], max_connections=1, timers=True, probe=False), 2))
+            out.append((S(ct, ["req:a:pt=0", "hold:a"], max_connections=2, timers=True, probe=False), 2))
+            if not quick:
+                out.append((S(ct, ["req:b:pt=7", "req:b:pt=5", "hold:a"], max_connections=1, timers=True, probe=False), 3))
+        return out
     cts = ["h11", "h11tls", "tunnel", "socks", "h2alpn"] if quick else list(scen.CONN_TYPES)
     for ct in cts:
         h2 = scen.CONN_TYPES[ct]["proto"] == "h2"
